@@ -21,6 +21,7 @@ func init() {
 }
 
 func runC02(c *Ctx) {
+	c02SnapshotImmutable(c)
 	facts := c.runCRules("C02", map[string]bool{"COPERAND": true})
 	c02Operands(c, facts["COPERAND/facts"])
 	c02Enc(c)
